@@ -423,7 +423,8 @@ static int do_rows(int first,int last,bool b64only)
 		vt::J j;
 		j.s("e","Row").bytes("pre",pre).b("all",!b64only);
 		if(!b64only) j.raw("esc",esc+"]").raw("urlenc",uenc+"]").raw("urldec",udec+"]").raw("rt_url",rtu+"]");
-		j.raw("b64enc",benc+"]").raw("b64dec",bdec+"]").raw("b64dec_ok",bdok+"]").raw("rt_b64",rtb+"]").raw("rt_b64_ok",rtbok+"]");
+		j.raw("b64enc",benc+"]").raw("rt_b64",rtb+"]").raw("rt_b64_ok",rtbok+"]");
+		if(!b64only) j.raw("b64dec",bdec+"]").raw("b64dec_ok",bdok+"]");   // the input itself as (arbitrary) text for the decoder
 		tr.line(j.str());
 		for(size_t i=0;i<odd.size();i++) tr.line(odd[i]);
 	}
